@@ -22,10 +22,13 @@ vars == <<conf, k, hist>>
 Init == conf \in Confs /\ k = 0 /\ hist = <<>>
 
 D(c) == Len(c.kinds)
+\* event levels >= 100 stand for the entry point Panic() (real level = lvl - 100 = PanicLevel): such an event carries a
+\* completion callback that panics after the write; fan-out and error routing must be exactly as for any other event
+Real(lvl) == IF lvl >= 100 THEN lvl - 100 ELSE lvl
 \* a filtered destination below its level is not called and reports success
-Called(d, lvl) == conf.kinds[d] # "filtered" \/ lvl >= conf.flevel[d]
+Called(d, lvl) == conf.kinds[d] # "filtered" \/ Real(lvl) >= conf.flevel[d]
 \* the level a destination sees: plain writers do not see it
-SeenLevel(d, lvl) == IF conf.kinds[d] = "plain" THEN -999 ELSE lvl
+SeenLevel(d, lvl) == IF conf.kinds[d] = "plain" THEN -999 ELSE Real(lvl)
 \* a short write is an error only under MultiLevelWriter (it is what detects it)
 Fails(d, lvl, out) == Called(d, lvl) /\ (out[d] = "err" \/ (out[d] = "short" /\ conf.multi))
 FirstFail(lvl, out) == LET F == {d \in 1..D(conf) : Fails(d, lvl, out)} IN
